@@ -18,10 +18,10 @@ diagnostic = `(code (first last) message (secondary-span…))`.
 * specification: every implementation diagnostic is judged by the documented condition of its lint
   (`false-positive`), and every documented canonical pattern that occurs in the program must have been reported
   (`missed-canonical`).  The specification side enumerates statements with the same flattening as the models
-  (proved to reach every position, `Selene.Lints.within_nodes_infix`) but shares none of the lints' logic.
+  (proved to reach every position, `Selene.LintsB.within_nodes_infix`) but shares none of the lints' logic.
 -/
 namespace Driver.C04B
-open Selene Selene.Lua Selene.Lints
+open Selene Selene.Lua Selene.LintsB
 
 structure ImplDiag where
   code : String
